@@ -280,6 +280,37 @@ func vrfC11ServerScript(h *vrfSrv, rng *rand.Rand, d *vrfC11Desc) {
 		if conn, _, _ := h.view(0); !filled && conn > 0 {
 			d.note("conn-probe: connection window not exhausted (%d left)", conn)
 		} else if !h.dead {
+			// variant: the excess goes to a stream for which the server has a RST_STREAM queued but
+			// not yet written (the client is not reading): such DATA is dropped, and it still
+			// counts against the connection window
+			if conn, _, _ := h.view(0); conn == 0 && rng.IntN(4) == 0 {
+				id := nextID
+				nextID += 2
+				h.R.Event("server_queued_reset_variant_entered", 1)
+				s.setCap(1) // from here on the server's writes get stuck in the pipe
+				s.cliPing([8]byte{0xc1, 0x1d})
+				synctest.Wait() // (not h.quiescent: a stuck server write is what this variant wants)
+				// HEADERS without :path: the server answers with RST_STREAM(PROTOCOL_ERROR), queued behind the stuck write
+				s.cliWrite(h2ref.AppendHeaders(nil, id, false, true, vsrvEncodeFields([]vsrvField{{":method", "POST"}, {":scheme", "https"}, {":authority", "verif.test"}}), nil, -1))
+				n := vsrvPick(rng, 1, 1, 100, 5000)
+				s.cliWrite(h2ref.AppendData(nil, id, false, make([]byte, n), -1))
+				d.note("conn-probe overflow on stream %d whose RST_STREAM is queued behind a stuck write: %d bytes with connection window 0", id, n)
+				synctest.Wait()
+				s.setCap(0)
+				if !h.quiescent() && !h.dead {
+					return
+				}
+				se, ce := flowErr(id)
+				if !se && !ce {
+					viol("overflow-not-rejected:connection-window-on-stream-with-queued-reset", "the peer's connection window was exhausted and it sent %d more flow-controlled bytes on stream %d, for which the server had a RST_STREAM(PROTOCOL_ERROR) queued but not yet written (its writes were stuck behind a client that was not reading); neither RST_STREAM(FLOW_CONTROL_ERROR) on the stream nor GOAWAY(FLOW_CONTROL_ERROR) followed once the client read again", n, id)
+				} else {
+					d.overflows++
+					h.R.Event("server_overflow_of_connection_window", 1)
+					h.R.Event("server_overflow_on_stream_with_queued_reset", 1)
+				}
+				endAfter = true
+				return
+			}
 			// one time in three the excess goes to a stream the client has ended already (its DATA
 			// is not delivered to any body and still counts against the connection window)
 			ended := rng.IntN(3) == 0
